@@ -7,4 +7,4 @@ require (
 	github.com/inspirer/textmapper v0.0.0
 )
 
-replace github.com/inspirer/textmapper => /tmp/mutrepo-mut22843
+replace github.com/inspirer/textmapper => /tmp/mutrepo-mut10078
